@@ -340,11 +340,7 @@ func inToLower(m *Machine, fr *frame, fn *ssa.Function, a []Value) Value {
 			continue
 		}
 		b := s.Sym[i]
-		if ok, dec := m.quickFeasible(tBin("bvuge", 0, b, bvConst(0x80, 8))); !dec || ok {
-			if m.feasible(tBin("bvuge", 0, b, bvConst(0x80, 8))) {
-				unsupported("strings.ToLower on a symbolic byte that may be >= 0x80 (harness must assume ASCII)")
-			}
-		}
+		m.assumeASCII(b, "strings.ToLower")
 		up := tAnd(tBin("bvuge", 0, b, bvConst('A', 8)), tBin("bvule", 0, b, bvConst('Z', 8)))
 		out.Sym[i] = tIte(up, tBin("bvadd", 8, b, bvConst(32, 8)), b)
 	}
@@ -366,9 +362,7 @@ func (m *Machine) isASCIISpace(fr *frame, s Str, i int) bool {
 		}
 		return b.V == ' ' || (b.V >= '\t' && b.V <= '\r')
 	}
-	if m.feasible(tBin("bvuge", 0, b.T, bvConst(0x80, 8))) {
-		unsupported("strings.TrimSpace on a symbolic byte that may be >= 0x80 (harness must assume ASCII)")
-	}
+	m.assumeASCII(b.T, "strings.TrimSpace")
 	sp := tOr(tEq(b.T, bvConst(' ', 8)), tAnd(tBin("bvuge", 0, b.T, bvConst('\t', 8)), tBin("bvule", 0, b.T, bvConst('\r', 8))))
 	return m.branchIn(fr, mkBool(sp))
 }
@@ -863,9 +857,7 @@ func inToUpper(m *Machine, fr *frame, fn *ssa.Function, a []Value) Value {
 			continue
 		}
 		b := s.Sym[i]
-		if m.feasible(tBin("bvuge", 0, b, bvConst(0x80, 8))) {
-			unsupported("strings.ToUpper on a symbolic byte that may be >= 0x80 (harness must assume ASCII)")
-		}
+		m.assumeASCII(b, "strings.ToUpper")
 		lo := tAnd(tBin("bvuge", 0, b, bvConst('a', 8)), tBin("bvule", 0, b, bvConst('z', 8)))
 		out.Sym[i] = tIte(lo, tBin("bvsub", 8, b, bvConst(32, 8)), b)
 		bs[i] = '?'
@@ -996,4 +988,24 @@ func (m *Machine) reCompilesRealistic(model map[string]uint64) bool {
 		}
 	}
 	return true
+}
+
+// assumeASCII restricts a symbolic byte to < 0x80 for the rest of the path. The case-mapping and
+// space-trimming models are exact for ASCII only; the non-ASCII part of the input space is left
+// unexplored at this point (an under-approximation that is counted and reported in the evidence,
+// never a source of alarms).
+func (m *Machine) assumeASCII(b *Term, who string) {
+	hi := tBin("bvuge", 0, b, bvConst(0x80, 8))
+	if ans, dec := m.quickFeasible(hi); dec && !ans {
+		return
+	}
+	if !m.feasible(hi) {
+		return
+	}
+	lo := tNot(hi)
+	if !m.feasible(lo) {
+		panic(abortPath{"non-ASCII byte in " + who + " (outside the model)"})
+	}
+	m.ex.noteAssumed(who + ": non-ASCII bytes not explored")
+	m.addPC(lo)
 }
